@@ -49,6 +49,9 @@ def run(prog, R, tier="quick", only_rule=None):
     from rules.props import c14
     c14.c14b(prog, R, rid="C07.g")
     c07h(prog, R)
+    # newer L0 tables never overtake older ones on the way down (shared with C06.l)
+    from rules.props import c06
+    c06.c06l(prog, R, rid="C07.i")
 
 
 def c07a(prog, R, rid="C07.a"):
